@@ -693,7 +693,13 @@ func (p *connPool) sendRequest(ctx context.Context, req Request, state connPoolS
 		if err != nil {
 			return reject(err)
 		}
-		brokerID = r.(*findcoordinator.Response).NodeID
+		res := r.(*findcoordinator.Response)
+		if res.ErrorCode != 0 {
+			// The node id is not meaningful (usually -1, which would send
+			// the request to any broker) when the lookup failed.
+			return reject(Error(res.ErrorCode))
+		}
+		brokerID = res.NodeID
 	case protocol.TransactionalMessage:
 		p := p.sendRequest(ctx, &findcoordinator.Request{
 			Key:     m.Transaction(),
@@ -703,7 +709,13 @@ func (p *connPool) sendRequest(ctx context.Context, req Request, state connPoolS
 		if err != nil {
 			return reject(err)
 		}
-		brokerID = r.(*findcoordinator.Response).NodeID
+		res := r.(*findcoordinator.Response)
+		if res.ErrorCode != 0 {
+			// The node id is not meaningful (usually -1, which would send
+			// the request to any broker) when the lookup failed.
+			return reject(Error(res.ErrorCode))
+		}
+		brokerID = res.NodeID
 	}
 
 	var c *conn
